@@ -78,6 +78,17 @@ Eval(st, x) ==   \* [ok |-> BOOLEAN, v |-> Int, e |-> error term]
     [ok |-> TRUE, e |-> None, v |-> IF d.n = "-" THEN 0 - l.v ELSE (IF l.v < 0 THEN 0 - l.v ELSE l.v)]
   ELSE [ok |-> FALSE, v |-> 0, e |-> TypeErr("evaluable", PI(d))]
 
+(* every error some order of evaluation could raise first: ISO leaves the order of evaluating the *)
+(* arguments open, so when several subterms are erroneous any of their errors is admissible.       *)
+RECURSIVE ArithErrs(_, _)
+ArithErrs(st, x) ==
+  LET d == Deref(st, x) IN
+  IF d.t = "i" THEN {}
+  ELSE IF d.t = "v" THEN {InstErr}
+  ELSE IF d.t = "a" THEN {TypeErr("evaluable", C2("/", A(d.n), I(0)))}
+  ELSE (IF (Len(d.a) = 2 /\ d.n \in ArithOps2) \/ (Len(d.a) = 1 /\ d.n \in ArithOps1) THEN {} ELSE {TypeErr("evaluable", PI(d))})
+       \cup UNION {ArithErrs(st, d.a[j]) : j \in 1..Len(d.a)}
+
 CmpOps == {"<", ">", "=<", ">=", "=:=", "=\\="}
 CmpHolds(op, a, b) == CASE op = "<" -> a < b [] op = ">" -> a > b [] op = "=<" -> a <= b
                         [] op = ">=" -> a >= b [] op = "=:=" -> a = b [] op = "=\\=" -> a # b
@@ -145,7 +156,12 @@ Unwind(m, gs, b) ==
 
 Throw(m, ballterm) ==
   LET cp == CopyOf(m.st, ballterm, m.k)
-  IN Unwind([m EXCEPT !.k = m.k + cp[2]], m.gs, cp[1])
+  IN Unwind([m EXCEPT !.k = m.k + cp[2], !.balts = {}], m.gs, cp[1])
+
+(* an arithmetic error: alts = the admissible alternatives (see ArithErrs) *)
+ThrowA(m, ballterm, alts) ==
+  LET cp == CopyOf(m.st, ballterm, m.k)
+  IN Unwind([m EXCEPT !.k = m.k + cp[2], !.balts = IF alts = {ballterm} THEN {} ELSE alts], m.gs, cp[1])
 
 IdList(cs) == ListOf([j \in 1..Len(cs) |-> I(cs[j].id)])
 ClauseById(m, id) == LET j == CHOOSE j \in 1..Len(m.db) : m.db[j].id = id IN m.db[j]
@@ -213,7 +229,8 @@ Exec(m, fr, rest) ==
                    !.gs = <<F(g.a[1], h0 + 1), F(C1("$cut", I(h0)), 0), F(g.a[2], cb)>> \o rest]
     [] IsF(g, "\\+", 1) ->
          [m EXCEPT !.cps = Append(m.cps, CP("alt", rest, m.st, None, None)),
-                   !.gs = <<F(Call1(g.a[1]), h0 + 1), F(C1("$cut", I(h0)), 0), F(Fail, 0)>>]
+                   !.gs = <<F(Call1(g.a[1]), h0 + 1), F(C1("$cut", I(h0)), 0), F(Fail, 0)>> \o rest]
+                   \* (rest is never reached: it is kept so that the '$popcatch' markers of enclosing catch/3 stay visible)
     [] IsF(g, "once", 1) ->
          [m EXCEPT !.gs = <<F(Call1(g.a[1]), h0), F(C1("$cut", I(h0)), 0)>> \o rest]
     [] IsF(g, "ignore", 1) ->
@@ -221,7 +238,7 @@ Exec(m, fr, rest) ==
                    !.gs = <<F(Call1(g.a[1]), h0 + 1), F(C1("$cut", I(h0)), 0)>> \o rest]
     [] IsF(g, "forall", 2) ->
          [m EXCEPT !.cps = Append(m.cps, CP("alt", rest, m.st, None, None)),
-                   !.gs = <<F(Call1(g.a[1]), h0 + 1), F(Not(g.a[2]), h0 + 1), F(C1("$cut", I(h0)), 0), F(Fail, 0)>>]
+                   !.gs = <<F(Call1(g.a[1]), h0 + 1), F(Not(g.a[2]), h0 + 1), F(C1("$cut", I(h0)), 0), F(Fail, 0)>> \o rest]
     [] g.t = "c" /\ g.n = "call" /\ Len(g.a) >= 1 ->
          LET c == Deref(m.st, g.a[1])
              extra == SubSeq(g.a, 2, Len(g.a))
@@ -243,13 +260,14 @@ Exec(m, fr, rest) ==
          IF TypeHolds(m.st, g.n, g.a[1]) THEN cont ELSE Backtrack(m)
     [] IsF(g, "is", 2) ->
          LET e == Eval(m.st, g.a[2]) IN
-         IF ~e.ok THEN Throw(m, e.e)
+         IF ~e.ok THEN ThrowA(m, e.e, ArithErrs(m.st, g.a[2]) \cup {e.e})
          ELSE LET u == Unify(m.st, g.a[1], I(e.v)) IN IF u.ok THEN [cont EXCEPT !.st = u.st] ELSE Backtrack(m)
     [] g.t = "c" /\ Len(g.a) = 2 /\ g.n \in CmpOps ->
-         LET l == Eval(m.st, g.a[1]) IN
-         IF ~l.ok THEN Throw(m, l.e) ELSE
+         LET l == Eval(m.st, g.a[1])
+             alts == ArithErrs(m.st, g.a[1]) \cup ArithErrs(m.st, g.a[2]) IN
+         IF ~l.ok THEN ThrowA(m, l.e, alts \cup {l.e}) ELSE
          LET r == Eval(m.st, g.a[2]) IN
-         IF ~r.ok THEN Throw(m, r.e)
+         IF ~r.ok THEN ThrowA(m, r.e, alts \cup {r.e})
          ELSE IF CmpHolds(g.n, l.v, r.v) THEN cont ELSE Backtrack(m)
     [] IsF(g, "throw", 1) ->
          IF Deref(m.st, g.a[1]).t = "v" THEN Throw(m, InstErr) ELSE Throw(m, g.a[1])
@@ -262,7 +280,7 @@ Exec(m, fr, rest) ==
          IF ~PartialList(m.st, g.a[3]) THEN Throw(m, TypeErr("list", g.a[3])) ELSE
          [m EXCEPT !.cps = Append(m.cps, CP("alt", <<F(C1("$fa_done", g.a[3]), 0)>> \o rest, m.st, None, None)),
                    !.lh = Append(m.lh, [h |-> id, items |-> <<>>]),
-                   !.gs = <<F(Call1(g.a[2]), id), F(C1("$fa_push", g.a[1]), 0), F(Fail, 0)>>]
+                   !.gs = <<F(Call1(g.a[2]), id), F(C1("$fa_push", g.a[1]), 0), F(Fail, 0)>> \o rest]
     [] IsF(g, "$fa_push", 1) ->
          LET cp == CopyOf(m.st, g.a[1], m.k)
              n == Len(m.lh)
@@ -356,6 +374,7 @@ Load(prog, dyn, q) ==
    static |-> {Key(prog[j].h) : j \in 1..Len(prog)} \ dyn,
    st |-> EmptyStore, gs |-> <<F(q, 0)>>, cps |-> <<>>, k |-> 1, ans |-> <<>>, ball |-> None,
    lh |-> <<>>, out |-> <<>>, gv |-> <<>>,
+   balts |-> {},   \* admissible alternatives for the ball of the last arithmetic error (empty: exactly m.ball)
    ve |-> FALSE]   \* ve: does a re-entered retract/1 still report a clause of its snapshot that was erased meanwhile?
                    \* (ISO 8.9.3 read literally: yes; most systems: no).  Unspecified by the property: models try both.
 
